@@ -70,9 +70,7 @@ def encEntriesWith (f : Val → R Val) : List (Val × Val) → R (List (Val × V
 def encFieldsWith (f : Schema → Val → R Val) : List Field → List (Val × Val) → R (List (Val × Val))
   | [], _ => pure []
   | fld :: rest, kv => do
-    let dv := match dictGetV kv fld.name with
-      | some x => x
-      | none => fld.default.getD .none
+    let dv := presentOrDefault kv fld
     let dv ← fieldCoerce fld.type dv         -- float(datum_value) for float / double fields
     let a ← f fld.type dv
     let b ← encFieldsWith f rest kv
